@@ -2196,13 +2196,28 @@ def mapping_list_fact(chk) -> Optional[str]:
     problem = None
     lengths = [3, 5, 2, 4]
     n = 0
+    # sizes the wrapper itself compares something with (a cap on the number of stems, residues ...): the stand-in structure is
+    # given just fewer and just more stems than each such constant, so that both sides of the comparison are input classes
+    thresholds = set()
+    for c in ast.walk(fi.node):
+        if isinstance(c, ast.Compare):
+            for x in [c.left] + list(c.comparators):
+                try:
+                    v = it.ev(x, __import__("sa.microeval", fromlist=["Scope"]).Scope(it._module_scope(T3)), T3) if isinstance(x, (ast.Name, ast.Constant, ast.Attribute)) else None
+                except Exception:
+                    v = None
+                if isinstance(v, int) and not isinstance(v, bool) and 1 <= v <= 5000:
+                    thresholds.add(v)
+    stem_counts = sorted({2} | {t + d for t in thresholds for d in (-1, 1)})
     try:
-        for k in range(1, 5):
+        for k, n_stems in [(k, 2) for k in range(1, 5)] + [(3, c) for c in stem_counts if c != 2]:
             strands = [("ABCD"[i], "ACGUACGU"[: lengths[i]]) for i in range(k)]
             total = sum(len(s) for _, s in strands)
             marks = "abcdefghijklmnopqrstuvwxyz"[:total]
             members = [_NS(sequence="".join(s for _, s in strands), structure=m) for m in (marks, marks.upper()[::-1])]
-            recv = it.instance(MC, attrs={}, over={"bpseq": _NS(all_dot_brackets=list(members), dot_bracket=members[0]), "strands_sequences": list(strands)}, module=T3)
+            stems = [_NS(strand5p=_NS(first=i + 1, last=i + 1), strand3p=_NS(first=2 * n_stems - i, last=2 * n_stems - i)) for i in range(n_stems)]
+            stub = _NS(all_dot_brackets=list(members), dot_bracket=members[0], fcfs=members[0], elements=(stems, [], [], []), entries=[], pairs={}, sequence=members[0].sequence)
+            recv = it.instance(MC, attrs={}, over={"bpseq": stub, "strands_sequences": list(strands)}, module=T3)
             kind, val = attempt(lambda: it.call_member(recv, "all_dot_brackets"))
             n += 1
 
@@ -2215,7 +2230,7 @@ def mapping_list_fact(chk) -> Optional[str]:
 
             want = [text_of(m.structure) for m in members]
             if kind != "value":
-                problem = problem or (site_of(fi, getattr(val, "lineno", None)), f"{MC}.all_dot_brackets {'raises ' + str(val) if kind == 'raise' else 'does not finish'} for {k} strand(s) of lengths {lengths[:k]}", want, None)
+                problem = problem or (site_of(fi, getattr(val, "lineno", None)), f"{MC}.all_dot_brackets {'raises ' + str(val) if kind == 'raise' else 'does not finish'} for {k} strand(s) of lengths {lengths[:k]} and {n_stems} stems", want, None)
             elif val != want and problem is None:
                 got = list(val) if isinstance(val, (list, tuple)) else repr(val)
                 why = ""
@@ -2224,6 +2239,8 @@ def mapping_list_fact(chk) -> Optional[str]:
                     bad = next((i for i in range(min(len(rows_g), len(rows_w))) if rows_g[i] != rows_w[i]), None)
                     if bad is not None and bad % 3 == 2:
                         why = f": strand {bad // 3 + 1} of {k} is given `{rows_g[bad]}` instead of its own slice `{rows_w[bad]}` of the notation (slices must be consecutive: each starts where the previous one ended)"
+                if isinstance(val, list) and len(val) != len(want):
+                    why = f": {len(val)} text(s) for {len(want)} members of BpSeq.all_dot_brackets, for a structure with {n_stems} stems" + (f" (the wrapper compares a size with {sorted(thresholds)})" if thresholds and n_stems > 2 else "") + " - members of the list are dropped"
                 problem = (fi.where, f"{MC}.all_dot_brackets for {k} strand(s) of lengths {lengths[:k]} is not one text per member of BpSeq.all_dot_brackets with every strand's own slice{why}", want, got)
     except NotEvaluable as ex:
         return str(ex)
